@@ -445,7 +445,9 @@ void mmd_export_image_latex(DString * out, const char * source, token * text, li
 
 		if ((text && text->len > 3) || (link->title && link->title[0] != '\0')) {
 			if (link->title && link->title[0] != '\0') {
-				printf("\\caption[%s]{", link->title);
+				print_const("\\caption[");
+				mmd_print_string_latex(out, link->title);
+				print_const("]{");
 			} else {
 				print_const("\\caption{");
 			}
@@ -2391,6 +2393,10 @@ void mmd_export_token_latex_tt(DString * out, const char * source, token * t, sc
 				print_const("\\^{}");
 			}
 
+			break;
+
+		case RAW_FILTER_LEFT:
+			print_const("\\{=");
 			break;
 
 		case TEXT_BRACE_LEFT:
